@@ -31,6 +31,10 @@ NormState(j) ==
    aggs |-> [p \in DOMAIN j.aggs |-> DOMAIN j.aggs[p]],
    classes |-> j.classes, ctraits |-> DOMAIN j.ctraits]
 
+\* states before / after the n-th commit
+Before(ln, n) == IF n = 1 THEN NormState(ln.db0) ELSE NormState(ln.commits[n - 1].post)
+After(ln, n)  == NormState(ln.commits[n].post)
+
 Succeeded(ln) == {k \in DOMAIN ln.reqs : ln.resps[k].status < 300}
 
 \* A request answered with success that committed no change at all (the no-op
@@ -42,10 +46,26 @@ Effective(ln) ==
        ln.commits[n].who = k
        /\ (IF n = 1 THEN NormState(ln.db0) ELSE NormState(ln.commits[n - 1].post)) # NormState(ln.commits[n].post)}
 
+\* The serial execution is folded with Apply; the generation *values* each
+\* request meets are those of the real execution at its (last effective)
+\* commit, so that the yardstick does not depend on how far the implementation
+\* moves a generation per change, while a guard that let a stale generation
+\* through still fails in the fold.
+LastEffectiveCommit(ln, k) ==
+  LET ns == {n \in DOMAIN ln.commits : ln.commits[n].who = k /\ Before(ln, n) # After(ln, n)}
+  IN CHOOSE n \in ns : \A m \in ns : m <= n
+RECURSIVE FoldObserved(_, _, _)
+FoldObserved(ln, st, ord) ==
+  IF ord = <<>> THEN [ok |-> TRUE, s |-> st]
+  ELSE LET k == Head(ord)
+           st1 == AdoptGens(st, Before(ln, LastEffectiveCommit(ln, k)))
+           a == Apply(st1, ln.reqs[k]) IN
+       IF a.resp.status # ln.resps[k].status THEN [ok |-> FALSE, s |-> st]
+       ELSE FoldObserved(ln, a.s, Tail(ord))
+
 Serializable(ln) ==
   \E ord \in Orders(Effective(ln)) :
-     LET f == FoldApply(NormState(ln.db0), ln.reqs, ln.resps, ord)
-     \* equal up to how far the generations the requests move have moved (8.16)
+     LET f == FoldObserved(ln, NormState(ln.db0), ord)
      IN f.ok /\ SameUpToRetriedGens(NormState(ln.db0), f.s, NormState(ln.final))
 
 \* states reachable by applying some of the successful requests in some order
@@ -76,9 +96,6 @@ Carried(r) ==
     [] OTHER -> {}
 ProviderData(s, u) == IF u \in Providers(s) THEN <<s.inv[u], s.traits[u], s.aggs[u]>> ELSE <<>>
 
-\* states before / after the n-th commit
-Before(ln, n) == IF n = 1 THEN NormState(ln.db0) ELSE NormState(ln.commits[n - 1].post)
-After(ln, n)  == NormState(ln.commits[n].post)
 
 C05_Commits(ln) ==
   \A n \in DOMAIN ln.commits :
